@@ -21,6 +21,11 @@ handshake state machines and cryptography are exercised by the harness (`c34_*` 
   the payload it returns is a sub-string of the extension (no length field can over-read);
   `ech_aad_slice_no_panic` — `hello[4:]` in `decryptECHPayload` is in range for every ClientHello the
   dispatch delivered (`readHandshake` only delivers messages of ≥ 4 bytes).
+* `ech_second_hello_no_panic` — across a HelloRetryRequest: for every context a first hello can record
+  (`ech_first_hello_ctx_wf`: inner-type ⇔ no HPKE context) and every ECH extension of the second hello, the ECH block
+  of `doHelloRetryRequest` proceeds, aborts, or decrypts with a context that exists; `ech_two_hellos_no_panic`
+  composes both; `ech_switch_check_needed` — with the outer-after-inner refusal removed the all-zero outer
+  extension reaches `hpkeContext.Open` on nil (witness).
 -/
 namespace C34
 open Wire HostileMsg
@@ -235,7 +240,87 @@ theorem ech_aad_slice_no_panic (inh : Kind → Bytes → Bool) (vers13 haveVers 
 /-- …and it *is* a panic site for anything shorter (the guard is needed). -/
 theorem ech_aad_slice_needs_header : echAadSlice [1, 0, 0] = .panic := by decide
 
+/-! ## ECH across a HelloRetryRequest -/
+
+/-- every context the first hello can leave behind is well-formed: inner-type ⇔ no HPKE context. -/
+theorem ech_first_hello_ctx_wf (haveKeys opens innerOk : Bool) (ext : Bytes) (c : EchCtx)
+    (h : echFirstHello haveKeys opens innerOk ext = .ctx c) : c.WF := by
+  unfold echFirstHello at h
+  split at h
+  · cases h
+  · split at h
+    · cases h
+    · cases h
+    · cases h; decide
+    · split at h
+      · cases h
+      · split at h
+        · cases h
+        · split at h
+          · cases h
+          · cases h; simp [EchCtx.WF]
+
+/-- **the second hello's ECH block never dereferences a missing HPKE context**: for every context a first
+hello can have recorded and every ECH extension of the second hello it proceeds, aborts with an alert, or
+decrypts with a context that is there. -/
+theorem ech_second_hello_no_panic (ctx : Option EchCtx) (hwf : ∀ c, ctx = some c → c.WF) (ext : Bytes) :
+    echSecondHello ctx ext ≠ .panic := by
+  unfold echSecondHello echSecondHelloG
+  cases ctx with
+  | none => simp
+  | some c =>
+    have hc := hwf c rfl
+    simp only
+    split
+    · simp
+    · split
+      · simp
+      · split <;> simp
+      · by_cases hi : c.inner = true
+        · simp [hi]
+        · have hh : c.hpke = true := by
+            unfold EchCtx.WF at hc
+            cases hin : c.inner <;> cases hhp : c.hpke <;> simp_all
+          simp only [Bool.true_and, hi, Bool.false_eq_true, if_false]
+          split
+          · simp
+          · simp [hh]
+
+/-- composed: whatever the two hellos carry, first-hello processing followed by the second-hello block is
+panic-free. -/
+theorem ech_two_hellos_no_panic (haveKeys opens innerOk : Bool) (ext1 ext2 : Bytes) :
+    (match echFirstHello haveKeys opens innerOk ext1 with
+     | .abort _ => true
+     | .noCtx => echSecondHello none ext2 != .panic
+     | .ctx c => echSecondHello (some c) ext2 != .panic) = true := by
+  cases h : echFirstHello haveKeys opens innerOk ext1 with
+  | abort a => rfl
+  | noCtx => simp [echSecondHello, echSecondHelloG]
+  | ctx c =>
+    have hwf := ech_first_hello_ctx_wf _ _ _ _ _ h
+    have := ech_second_hello_no_panic (some c) (by intro c' hc'; cases hc'; exact hwf) ext2
+    simpa using this
+
+/-- the refusal of an *outer*-type second hello after an *inner*-type first one is what keeps the nil context
+away: with only the other direction checked (seeded change C34-1) an all-zero outer extension reaches the
+decryption with no context. Witness: first hello `01`, second hello `00 0000 0000 00 0000 0001 aa`. -/
+theorem ech_switch_check_needed :
+    echFirstHello false false false [1] = .ctx { inner := true, hpke := false } ∧
+    echSecondHelloG false (some { inner := true, hpke := false }) [0, 0, 0, 0, 0, 0, 0, 0, 0, 1, 170] = .panic ∧
+    echSecondHello (some { inner := true, hpke := false }) [0, 0, 0, 0, 0, 0, 0, 0, 0, 1, 170] = .abort 50 := by
+  refine ⟨by decide, by decide, by decide⟩
+
 /-! ## non-vacuity -/
+
+example : echSecondHello (some { inner := false, hpke := true, configId := 7, kdf := 1, aead := 1 })
+    [0, 0, 1, 0, 1, 7, 0, 0, 0, 2, 9, 9] = .decrypt [9, 9] := by decide
+example : echSecondHello (some { inner := false, hpke := true, configId := 7, kdf := 1, aead := 1 })
+    [0, 0, 1, 0, 1, 8, 0, 0, 0, 2, 9, 9] = .abort 47 := by decide
+example : echSecondHello (some { inner := false, hpke := true, configId := 7, kdf := 1, aead := 1 }) [1] = .abort 50 := by decide
+example : echSecondHello (some { inner := true, hpke := false }) [] = .abort 109 := by decide
+example : echFirstHello true true true [0, 0, 1, 0, 1, 7, 0, 1, 5, 0, 1, 6]
+    = .ctx { inner := false, hpke := true, configId := 7, kdf := 1, aead := 1 } := by decide
+
 
 example : unmarshalMsg (fun _ _ => true) false true [8, 0, 0, 2, 0, 0] = (.ok .clientEE, 0) := by decide
 example : unmarshalMsg (fun _ _ => true) false true [8, 0, 0, 1, 0] = (.err .unexpectedMessage, 1) := by decide
